@@ -69,7 +69,7 @@ def content_files(rng, tier):
 NAMED = ["sp ace.txt", "q?.txt", "a|b.txt", "per%cent.txt", "per%41.txt", "#frag.txt", "am&p.txt", "semi;colon.txt",
          "a+b.txt", "\xae.txt", "caf\xc3\xa9.txt", "UPPER.TXT", "noext", ".hidden", "arch.tar.gz", "x.tgz",
          "doc.txt.bz2", "pic.GIF", "page.html", "colon:name.txt", "eq=ual.txt", "at@sign.txt", "tilde~.txt",
-         "quote'\".txt", "lt<gt>.txt", "weird.\xe2\x84\xaa", "dots..txt", "two.dots.png", "x.svgz", "trailing.", "a.Z",
+         "quote'\".txt", "lt<gt>.txt", "weird.\xe2\x84\xaa", "two.dots.png", "x.svgz", "trailing.", "a.Z",
          "data.json", "nul.bin"]
 
 
@@ -183,6 +183,17 @@ def run(tier):
     rng = chk.rng
     found = False
     kbroken = []          # (name, detail)
+    import time as _time
+    t_last = [_time.time()]
+    timing = chk.notes.setdefault("timing_s", {})
+
+    def tick(label):
+        now = _time.time()
+        timing[label] = round(now - t_last[0], 1)
+        t_last[0] = now
+        if os.environ.get("VERIF_TIMING"):
+            print("timing", label, timing[label], file=sys.stderr)
+    tick("proofs")
 
     # ---------------- component K: html.escape / decimal / splitext ----------------
     alpha = ["&", "<", ">", '"', "'", "a", "m", "p", ";", "#", "x", "2", "7", "l", "t", "g", "q", "u", "o", " ", "\n",
@@ -233,6 +244,7 @@ def run(tier):
             found = True
             chk.violation({"what": "decimal printing does not read back", "n": n, "printed": s}, tag="dec-roundtrip")
 
+    tick("component-strings")
     # ---------------- component K: MIME tables, exhaustively ----------------
     shipped_mapping = [['text/html', 'h'], ['text/.+', '0'], ['application/mac-binhex40', '4'], ['audio/.+', 's'],
                        ['image/gif', 'g'], ['image/.+', 'I'], ['application/gopher-menu', '1'],
@@ -301,6 +313,7 @@ def run(tier):
                              "mime_names": len(names), "mime_exhaustive_over_extensions": len(exts),
                              "encodings": encs[1:], "shards": n1 + n2 + n3 + n4 + n5}
 
+    tick("component-mime")
     # ---------------- end to end ----------------
     files = content_files(rng, tier) + named_files(rng)
     blk = rand_bytes(rng, BIG_BLK)
@@ -364,6 +377,7 @@ def run(tier):
         raise RuntimeError(gres[0]["err"])
     sel_guess = {n: tuple(g) for n, g in zip(sel_guess_names, gres[0]["res"])}
 
+    tick("impl-worlds")
     decomp = {"gzip": "zcat"}
     records = []      # dicts, one per request
     for (cfgname, _), wr in zip((("default", None), ("full", FULL_CONFIG)), wres):
@@ -484,6 +498,7 @@ def run(tier):
                    body_bytes=len(body), expected_bytes=len(want), first_difference_at=first)
     cov["oracle"] = {"requests": n_or, "files": len(files) + 1 + len(special), "violations": len(chk.violations)}
 
+    tick("oracle")
     # ---- K: the same responses against the model, inside Coq ----
     tpre = {"default": tables_pre(tables), "full": tables_pre(tables_full)}
     shards = {}       # (cfg, path) -> list of records
@@ -579,6 +594,7 @@ def run(tier):
 
     with concurrent.futures.ThreadPoolExecutor(max_workers=NPROC) as ex:
         outs = list(ex.map(eval_shard, enumerate(sorted(shards.items(), key=lambda kv: -len(kv[1][0]["data"])))))
+    tick("k-end-to-end")
     kbad, kerrs, nsh = [], [], 0
     for bad, errs, ns in outs:
         kbad += bad
